@@ -13,11 +13,15 @@ pub fn cfg_wild_small() -> GenCfg {
 }
 
 pub fn run(c: &Ctx) {
-    c.set_rule("histories of every trait method with the unrestricted argument generator (paths through links, root as any argument, empty string, long '..' chains, 300-byte names, src==dst, src ancestor/descendant of dst, every builder option, failing calls kept in; write()/append() handles that stay open across later steps - so a handle can outlive, or be flushed after, the removal, replacement or move of its file), from a fresh Memfs; after EVERY step the raw dump (hook H2) must satisfy: every key but the root has a parent key that is a real directory and lists it; every listed name exists; regular non-link files and only they have byte content; entry.path == key; cwd/root absolute and clean; no children below non-directories; lock not poisoned; and the public API view (exists/mode/owner/read/readlink_abs/cwd) equals the stored state. Concurrent part: every two-thread program with one call each over the 46-form C04 alphabet from two seed states, all interleavings at guard granularity: no panic, every call returns, the same invariants at quiescence. Non-trivial = history containing a failing call or a two-path op; distinct by concrete op list.");
+    c.set_rule("histories of every trait method with the unrestricted argument generator (paths through links, root as any argument, empty string, long '..' chains, 300-byte names, src==dst, src ancestor/descendant of dst, every builder option, failing calls kept in; write()/append() handles that stay open across later steps - so a handle can outlive, or be flushed after, the removal, replacement or move of its file), from a fresh Memfs; after EVERY step the raw dump (hook H2) must satisfy: every key but the root has a parent key that is a real directory and lists it; every listed name exists; regular non-link files and only they have byte content; entry.path == key; cwd/root absolute and clean; no children below non-directories; lock not poisoned; and the public API view (exists/mode/owner/read/readlink_abs/cwd) equals the stored state. Concurrent part: every two-thread program with one call each over the 46-form C04 alphabet from two seed states, all interleavings at guard granularity: no panic, every call returns, the same invariants at quiescence. Plus EVERY sequence of 3 calls (thorough: a seeded 1/16 of those of 4) over a 67-form alphabet after 3 seed prefixes, each from a fresh instance (bookkeeping one call leaves for the next - a memoised parent, a cached resolution - shows only to particular short histories). Non-trivial = history containing a failing call or a two-path op; distinct by concrete op list.");
     c.assume("Memfs::verif_dump (hook H2) is a faithful copy of the internal indexes");
     let n = c.tier.pick(30_000, 300_000);
     let cfg = cfg_wild_small();
     run_proptest("ops", 301, || history(50), n, |specs: &Vec<OpSpec>| check_history(c, specs, &cfg, &OPTS, "ops"));
+    crate::hsweep::history_sweep(c, 3, 303, 1, "integrity", |ops| run_ops(ops, &StepOpts { model_compare: false, api_view: false }));
+    if c.tier == Tier::Thorough {
+        crate::hsweep::history_sweep(c, 4, 304, 16, "integrity", |ops| run_ops(ops, &StepOpts { model_compare: false, api_view: false }));
+    }
     let cfg2 = cfg_wild();
     let n2 = c.tier.pick(2_000, 40_000);
     run_proptest("ops", 302, || history(c.tier.pick(80, 200)), n2, |specs: &Vec<OpSpec>| check_history(c, specs, &cfg2, &OPTS, "ops"));
